@@ -20,6 +20,7 @@ func (e *Engine) registerIntrinsics() {
 		"(*sync.RWMutex).RLock":   intrRWRLock,
 		"(*sync.RWMutex).RUnlock": intrRWRUnlock,
 		"(*sync.WaitGroup).Add":   intrWGAdd,
+		"(*sync.Once).Do":         intrOnceDo,
 		"(*sync.WaitGroup).Done":  intrWGDone,
 		"(*sync.WaitGroup).Wait":  intrWGWait,
 		// atomics
@@ -51,22 +52,22 @@ func (e *Engine) registerIntrinsics() {
 		"sync/atomic.CompareAndSwapUint64":  intrAtomicCAS,
 		"sync/atomic.CompareAndSwapPointer": intrAtomicCAS,
 		// time / rand / math / log / runtime
-		"time.Now":           func(c *icall) { c.ret(c.e.zero(c.fn.Signature.Results().At(0).Type())) },
-		"time.Since":         func(c *icall) { c.ret(BV(64, 0)) },
-		"time.Until":         func(c *icall) { c.ret(BV(64, 0)) },
-		"time.Sleep":         func(c *icall) { c.ret(nil) },
+		"time.Now":             func(c *icall) { c.ret(c.e.zero(c.fn.Signature.Results().At(0).Type())) },
+		"time.Since":           func(c *icall) { c.ret(BV(64, 0)) },
+		"time.Until":           func(c *icall) { c.ret(BV(64, 0)) },
+		"time.Sleep":           func(c *icall) { c.ret(nil) },
 		"(time.Time).UnixNano": func(c *icall) { c.ret(BV(64, 0)) },
-		"math/rand.Float64":  func(c *icall) { c.ret(Float(0.5)) },
-		"math/rand.NewSource": func(c *icall) { c.ret(Iface{}) },
-		"math/rand.New":      func(c *icall) { c.ret(Ptr{}) },
-		"math/rand.Intn":     func(c *icall) { c.ret(BV(64, 0)) },
-		"math.Min": func(c *icall) { c.ret(Float(math.Min(float64(c.args[0].(Float)), float64(c.args[1].(Float))))) },
-		"math.Max": func(c *icall) { c.ret(Float(math.Max(float64(c.args[0].(Float)), float64(c.args[1].(Float))))) },
-		"math.Pow": func(c *icall) { c.ret(Float(math.Pow(float64(c.args[0].(Float)), float64(c.args[1].(Float))))) },
-		"math.Float64bits": func(c *icall) { c.ret(BV(64, math.Float64bits(float64(c.args[0].(Float))))) },
-		"runtime.Gosched":  func(c *icall) { c.ret(nil) },
-		"runtime.KeepAlive": func(c *icall) { c.ret(nil) },
-		"log.Printf":       intrNop, "log.Println": intrNop, "log.Print": intrNop,
+		"math/rand.Float64":    func(c *icall) { c.ret(Float(0.5)) },
+		"math/rand.NewSource":  func(c *icall) { c.ret(Iface{}) },
+		"math/rand.New":        func(c *icall) { c.ret(Ptr{}) },
+		"math/rand.Intn":       func(c *icall) { c.ret(BV(64, 0)) },
+		"math.Min":             func(c *icall) { c.ret(Float(math.Min(float64(c.args[0].(Float)), float64(c.args[1].(Float))))) },
+		"math.Max":             func(c *icall) { c.ret(Float(math.Max(float64(c.args[0].(Float)), float64(c.args[1].(Float))))) },
+		"math.Pow":             func(c *icall) { c.ret(Float(math.Pow(float64(c.args[0].(Float)), float64(c.args[1].(Float))))) },
+		"math.Float64bits":     func(c *icall) { c.ret(BV(64, math.Float64bits(float64(c.args[0].(Float))))) },
+		"runtime.Gosched":      func(c *icall) { c.ret(nil) },
+		"runtime.KeepAlive":    func(c *icall) { c.ret(nil) },
+		"log.Printf":           intrNop, "log.Println": intrNop, "log.Print": intrNop,
 		"(*log.Logger).Printf": intrNop, "(*log.Logger).Println": intrNop, "(*log.Logger).Print": intrNop,
 		"log.Fatalf": intrLogFatal, "log.Fatal": intrLogFatal, "log.Fatalln": intrLogFatal,
 		"(*log.Logger).Fatalf": intrLogFatal, "(*log.Logger).Fatal": intrLogFatal,
